@@ -168,6 +168,9 @@ fn check(font: &MonoFont, st: MonoTextStyle<'_, Gray8>, sty: &[&str], ts: TextSt
         if dflt != TextStyleBuilder::new().alignment(Alignment::Left).baseline(Baseline::Alphabetic).line_height(LineHeight::Percent(100)).build() {
             return Err("TextStyle::default() is not Left / Alphabetic / 100%".into());
         }
+        if LineHeight::default() != LineHeight::Percent(100) { return Err("LineHeight::default() is not Percent(100)".into()); }
+        if TextStyleBuilder::default().build() != dflt || TextStyleBuilder::new().build() != dflt { return Err("TextStyleBuilder::default()/new() does not build TextStyle::default()".into()); }
+        if TextStyleBuilder::from(&ts).build() != ts { return Err("TextStyleBuilder::from(&style).build() differs from the style".into()); }
         if TextStyle::with_baseline(ts.baseline) != TextStyleBuilder::new().baseline(ts.baseline).build() { return Err("TextStyle::with_baseline differs from the builder".into()); }
         if TextStyle::with_alignment(ts.alignment) != TextStyleBuilder::new().alignment(ts.alignment).build() { return Err("TextStyle::with_alignment differs from the builder".into()); }
         let mut forms: Vec<(&str, Text<'_, MonoTextStyle<'_, Gray8>>, TextStyle)> = Vec::new();
